@@ -252,8 +252,9 @@ impl C18 {
                 (Cell::from(v), "nested-vector")
             }
             3 | 4 => {
-                // bit-string sliced at bit offset 1..7 (the copying path)
-                let off = 1 + rng.below(7);
+                // bit-string sliced at a bit offset that is not a byte multiple (the copying path), in the first byte or
+                // some bytes into its buffer
+                let off = 1 + rng.below(7) + 8 * rng.below(4);
                 let mut b = BitvecBuilder::default();
                 for _ in 0..off {
                     b.append_bit(rng.flip() as u8);
@@ -275,7 +276,12 @@ impl C18 {
 impl Monitor for C18 {
     fn run_case(&mut self, idx: u64, obs: &mut Obs) {
         let mut rng = Rng::for_case("C18", self.seed, idx);
-        let len = if small() { (idx % 29) as usize } else { (idx % 301) as usize };
+        let mut len = if small() { (idx % 29) as usize } else { (idx % 301) as usize };
+        if !small() && fnv1a(&idx.to_le_bytes()) % 97 == 0 {
+            // one case in ~100 is long: around the block sizes encoders like to work in
+            len = *rng.pick(&[1023usize, 1024, 1025, 1026, 2047, 2048, 2049, 3072, 3073, 4095, 4097, 8193]);
+            obs.count("long_inputs");
+        }
         let data: Vec<u8> = match (idx / 301) % NCLASS {
             0 => rng.bytes(len),
             1 => vec![0u8; len],
